@@ -227,6 +227,17 @@ fn explore(cfg: &Cfg, tokens: &[usize], kf_listed: bool) -> Stat {
                 if comparable && order == 1 && got != want2 {
                     st.bad = Some((vec![], "feed_str-chunking".into(), format!("the string and {} inert characters in ONE call vs in two calls: {}", pad, diff(&got, &want2))));
                 }
+                if order == 0 && pad >= 4200 {
+                    // ... and with the cut INSIDE the inert string: a first call that leaves the
+                    // parser in the string, then one long call that ends it and goes on
+                    let mut cutin = cfg.build();
+                    let _ = cutin.feed_str(&filler[..6]);
+                    let _ = cutin.feed_str(&format!("{}{}", &filler[6..], s));
+                    let got2 = final_of(cfg, &cutin);
+                    if got2 != got {
+                        st.bad = Some((vec![], "feed_str-chunking".into(), format!("{} inert characters and the string in ONE call vs cut after 6 characters: {}", pad, diff(&got, &got2))));
+                    }
+                }
                 if order == 0 {
                     let mut two = cfg.build();
                     let _ = two.feed_str(&filler);
@@ -415,6 +426,10 @@ fn long_runs(ctx: &Ctx, rep: &mut Report) {
         }
     }
     lens.extend([20000, 50000, 70000]);
+    for k in 10..=max_pow.saturating_sub(1) {
+        let p = 3usize << k;
+        lens.extend([p / 2, p / 4 + 1, p / 10, p / 10 * 4 + 3]);
+    }
     lens.sort();
     lens.dedup();
     // (name, prefix, unit repeated to the length, suffix)
@@ -427,6 +442,8 @@ fn long_runs(ctx: &Ctx, rep: &mut Report) {
         ("APC payload", "ab\x1b_G", "p", "\x1b\\cd"),
         ("text", "\x1b[2;2H", "t", "\x1b[1mz"),
         ("wide text", "", "漢", "z"),
+        ("mixed-width text", "", "aé漢😀", "z"),
+        ("mixed-width text after one byte", "q", "é😀a漢", "z"),
         ("CSI digits", "ab\x1b[", "1", "mcd"),
         ("CSI parameters", "ab\x1b[", "1;", "mcd"),
         ("line feeds", "ab", "\n", "cd"),
